@@ -39,7 +39,7 @@ func opGhost() error {
 	}
 	visit := func() (net.Conn, error) {
 		d := net.Dialer{LocalAddr: &net.TCPAddr{IP: ip}, Timeout: 3 * time.Second}
-		c, err := d.Dial("tcp", "127.0.0.1:"+sr.params.DefaultPort)
+		c, err := chainh.PatientDial(&d, "tcp", "127.0.0.1:"+sr.params.DefaultPort)
 		if err != nil {
 			return nil, err
 		}
